@@ -295,7 +295,8 @@ theorem loaders_documented :
 first column, dtype = the `data_type` parameter whose default is `np.float32` (`defaults_documented`) — so a `.tlt`/`.rawtlt`
 angle is the written decimal rounded to float32, nothing else (no `np.round`, no sorting). The mdoc path: `Mdoc(path)` →
 `_read_mdoc` → `_parse_images` (`_format_value` per entry, then `TiltAngle` → `astype(float)`: the written decimal rounded to
-float64) → `get_image_feature` returns the column as is. This is what ties `parseDec` (the exact written value) to the key the
+float64) → `get_image_feature` returns the column as is; `_parse_header` (last conjunct, round 7) takes a header line that starts
+with `[` as a title WITHOUT splitting it — a real SerialEM title holds several `=` — and splits only key lines on `=`. This is what ties `parseDec` (the exact written value) to the key the
 code sorts by; the correspondence run generates decimal angles as close as 1e-4° to check it. -/
 theorem angle_readers_documented :
     Gen.C15.oneValuePerLineBody = 
@@ -372,7 +373,18 @@ theorem angle_readers_documented :
       "    v0 = value.strip()",
       "return v0"]
     ∧ Gen.C15.mdocFeatureBody = 
-      ["return self.imgs[feature]"] := ⟨rfl, rfl, rfl, rfl, rfl, rfl⟩
+      ["return self.imgs[feature]"]
+    ∧ Gen.C15.mdocParseHeaderBody = 
+      ["v0 = []",
+      "v1 = {}",
+      "for v2 in header:",
+      "  if v2.startswith('['):",
+      "    v3 = v2.strip('[').strip(']').strip()",
+      "    v0.append(v3)",
+      "  else:",
+      "    v4, v5 = v2.split('=')",
+      "    v1[v4.strip()] = Mdoc._format_value(v5)",
+      "return (v0, v1)"] := ⟨rfl, rfl, rfl, rfl, rfl, rfl, rfl⟩
 
 /-- **The MRC reader and writer every operation passes through** (`cryomap.read` / `cryomap.write`, whole bodies — not only the
 `transpose=` keyword of the two call sites): `read` returns a copy of `mrcfile.open(...).data`, transposed only on request, cast
@@ -1071,8 +1083,11 @@ theorem sort_by_written_angles_unique (keys : List Rat) (hnodup : keys.Nodup) (i
 /-- **Ties (outside the property; recorded).** The MODEL's sort is stable: whenever image `i` comes before image `j` in the
 input and its angle is `≤` the angle of `j` (in particular: equal), `i` comes before `j` in the result. The real code calls
 `np.argsort(tilt_angles)` with numpy's default `kind="quicksort"` (`sort_expressions_documented`), which numpy does not
-promise to be stable; so for tied angles the harness only checks that the result is SOME ascending arrangement and never
-compares the positions of tied images with the model. -/
+promise to be stable; so for tied angles the harness only checks that the result is SOME ascending arrangement of the images
+that have an angle, and does not compare the positions of tied images with the model. The tie class is decided before the
+length class: an angle list SHORTER than the stack that holds a tie is judged the same way (up to the order inside tie
+groups); until round 7 such lists were compared position by position with this stable model, which produced a false alarm
+(seed 1069) — a correction of the harness, never a finding. -/
 theorem sort_ties_keep_input_order (le : κ → κ → Bool)
     (htrans : ∀ a b c, le a b = true → le b c = true → le a c = true) (htotal : ∀ a b, (le a b || le b a) = true)
     (angles : List κ) (imgs : List ι) (hlen : angles.length = imgs.length) (i j : Nat) (hij : i < j) (hj : j < angles.length)
@@ -1136,6 +1151,26 @@ theorem file_holds_result_sort_lines (d : α) (inXyz outZyx : Bool) (inp : Input
     | some keys =>
       rw [(sort_argument_kinds arg _).2.2.1 cells keys hc hk] at hrs
       exact (ops_wf (κ := Rat) (load d inXyz inp) hin).1 ratLe keys rs hrs
+
+/-- **The written file holds the result for binning too** (the sixth function; `file_holds_result_for_each_function` lists the five
+that only move voxels): over any field, for every binning factor, also through the cast back to the stack's dtype (`c`, e.g.
+`truncI` for int16 stacks — `write_out` and `correct_order` apply the same cast). -/
+theorem file_holds_result_bin {F β : Type} [Field F] (c : F → β) (d : F) (inXyz outZyx : Bool) (inp : Input F) (o : Out F) (b : Nat)
+    (h : pipeline d inXyz outZyx true (opBin b) inp = .ok o) :
+    ((outZyx = true → o.written.map readMrc = o.returned)
+      ∧ (outZyx = false → o.written.map (fun f => transpose3 d (readMrc f)) = o.returned))
+    ∧ ((outZyx = true → (o.cast c).written.map readMrc = (o.cast c).returned)
+      ∧ (outZyx = false → (o.cast c).written.map (fun f => transpose3 (c d) (readMrc f)) = (o.cast c).returned)) := by
+  have hop : ∀ rs, opBin b (load d inXyz inp) = .ok rs → ∀ r ∈ rs, r.WF := by
+    intro rs hrs r hr
+    unfold opBin at hrs
+    cases hb : bin b (load d inXyz inp) with
+    | error e => rw [hb] at hrs; cases hrs
+    | ok r' =>
+      rw [hb] at hrs; cases hrs
+      simp only [List.mem_singleton] at hr; subst hr
+      exact (bin_shape b _ _ hb).2.2.2
+  exact ⟨written_file_holds_result d inXyz outZyx _ inp o hop h, written_file_holds_result_cast c d inXyz outZyx _ inp o hop h⟩
 
 /-! ### non-vacuity: concrete inputs meeting the hypotheses -/
 
